@@ -43,6 +43,7 @@ package wire
 //@ chanopen[C06] message.Request: keyed(ch)
 //@ lockinv[C06] ClientConn.mu: self.replyCh != nil && forall(id, uint32, imp(has(self.replyCh, id), keyed(self.replyCh[id]) && chkey(self.replyCh[id]) == id))
 //@ typeassume ClientConn: !keyed(self.msgRequestCh)
+//@ typeassume ClientConn: !ackKeyed(self.msgUpstreamCallAckCh) && !replyKeyed(self.msgDownstreamCallCh)   // inbox queues are not keyed reply channels (C16)
 
 //@ func (*ClientConn).sendRequest
 //@   props C06
